@@ -78,13 +78,15 @@ PKG_SCOPE = "model files of the package are hand-written transcriptions tied by 
 
 prop(
     "C03",
-    ["LolHtml.Thm.C03_Sim", "LolHtml.Thm.C03_Ref", "LolHtml.Thm.C03_Strict", "LolHtml.Thm.C03_Trace", "LolHtml.Thm.Full2"],
+    ["LolHtml.Thm.C03_Sim", "LolHtml.Thm.C03_Ref", "LolHtml.Thm.C03_Strict", "LolHtml.Thm.C03_Trace", "LolHtml.Thm.C03_TreeBuilder", "LolHtml.Thm.C03_TreeBuilderForeign", "LolHtml.Thm.Full2"],
     [{"lane": "hash", "n_quick": 3000, "n_thorough": 40000},
      {"lane": "lex", "n_quick": 3000, "n_thorough": 100000},
-     {"lane": "h5", "n_quick": 3000, "n_thorough": 60000, "impl_only": True}],
-    "lane h5 (implementation only): tag soup in the HTML namespace without svg/math (all text-mode elements, select/template/frameset/table, truncated constructs, case variants) and documents from a recursive well-nested foreign-content grammar, real HtmlRewriter (strict, all-observer and single-kind capture sets, random chunkings) vs the html5ever 0.39 tokenizer driven by its own tree builder (RcDom); lane hash: names over the hash alphabet, table names with case variants, length-limit and sentinel neighbourhood, bad bytes; "
+     {"lane": "h5", "n_quick": 3000, "n_thorough": 60000, "impl_only": True},
+     {"lane": "tb", "n_quick": 3000, "n_thorough": 100000}],
+    "lane tb (validates the SPEC, does not call lol-html): Spec.TreeBuilder — a Lean transcription of WHATWG 13.2.6 tree construction (all 23 insertion modes, foreign content, scopes, active formatting list with adoption agency; no DOM) — against html5ever 0.39's tree builder driven token by token through a DOM-less TreeSink: tokenizer feedback, CDATA flag and the WHOLE stack of open elements after every token, on token soup over every name the standard mentions / 23 mode-biased streams / foreign content / formatting / tables; six documented deviations of html5ever from the standard are explicit switches; lane h5 (implementation only): tag soup in the HTML namespace without svg/math (all text-mode elements, select/template/frameset/table, truncated constructs, case variants) and documents from a recursive well-nested foreign-content grammar, real HtmlRewriter (strict, all-observer and single-kind capture sets, random chunkings) vs the html5ever 0.39 tokenizer driven by its own tree builder (RcDom); lane hash: names over the hash alphabet, table names with case variants, length-limit and sentinel neighbourhood, bad bytes; "
     + LEX_RULE,
-    ["the real WHATWG tree builder is NOT modelled: the expected namespaces / text types are the author's reading of WHATWG 13.2.6, validated on witnesses against html5ever (lane nsprobe), not proved",
+    ["the tree-construction stage IS formalised (Spec/TreeBuilder*.lean, validated against html5ever 0.39 by lane tb on 600 000 token sequences incl. the whole stack after every token; html5ever implements the 2025 'customizable select' text: Cfg.legacySelect = false is what is validated, the pre-2025 text with the two select modes only on select-free input) and the simulator is PROVED to agree with it on stated classes: HTML-namespace token sequences without a template start tag and without a frameset start tag after a select start tag (C03_tb_text_feedback_partial, C03_tb_guard_sound_partial), and the well-nested foreign island grammar with names outside the 125 the standard mentions (C03_tb_foreign_partial); the unrestricted statements are REFUTED by evaluated witnesses (C03_tb_*_statement_false) that are genuine findings F31-F34",
+     "hypotheses of the tree-builder theorems: scripting enabled, current-standard select parsing, hash test = name test on the 125 names the standard mentions (agree_named, decided on the generated tag table)",
      "Ref tables (lean/LolHtml/Ref/Tags.lean) are hand-reviewed against the standard",
      "C03_parser_sim_trace is for pure lexer-mode runs (mixed scanner/lexer runs split the simulator step across the two machines: C06) and excludes runs dying in the three debug assertions of handle_tree_builder_feedback; the strict theorems need the table side-condition EmitsChecked (`?` on emit_tag / finish_tag_name), decided on the generated table",
      MODEL_SCOPE],
@@ -103,10 +105,16 @@ prop(
                 "non-strict stream never reports ambiguity (C03_nonstrict_no_ambiguity); in lexer mode the parser's simulator is "
                 "Sim.run over the emitted lexemes' events and every start tag is stamped with its trace entry's namespace "
                 "(C03_parser_sim_trace, C03_lexer_stamps_expected carries the grammar theorem to the parser). "
-                "PARTIAL: equality with a real tree builder on tag soup is not a theorem."),
+                "Against a Lean transcription of the WHATWG tree-construction stage (Spec.TreeBuilder, validated against html5ever): "
+                "for every HTML-namespace token sequence without template and without frameset-after-select, at every token the "
+                "strict simulator accepts, lol-html's tokenizer switch = the standard's switch = the switch of that tag "
+                "(C03_tb_text_feedback_partial/_gen), and a text-switching start tag accepted in strict mode is never ignored by "
+                "the standard's tree builder (C03_tb_guard_sound_partial); on the well-nested island grammar simulator and "
+                "standard agree tag by tag on namespaces (C03_tb_foreign_partial). PARTIAL: outside those classes the full "
+                "statements are false (F31-F34, F2, F11, F12, F28 all come out of the spec as evaluated disagreements)."),
     level_note=("Trusted: Lean kernel; translators; the reviewed Ref tables; the model of the simulator (tied by lanes lex/hash). "
-                "Not covered: the 23 insertion modes of the real tree builder (differential lane h5 against html5ever only); a "
-                "bisimulation 'equal resolution => equal runs' and formal lemmas for the nine shape deviations of the reference table."),
+                "Spec.TreeBuilder is a hand transcription of WHATWG 13.2.6 (trusted as a reading of the standard, validated by lane tb). "
+                "Not covered: a bisimulation 'equal resolution => equal runs' and formal lemmas for the nine shape deviations of the reference table."),
     technique="Lean 4 proof (kernel-evaluated table obligations + induction over tag sequences / grammar derivations) + correspondence lanes",
     design_ref="DESIGN.md section 4 C03",
 )
@@ -365,7 +373,7 @@ prop(
 
 prop(
     "C09",
-    ["LolHtml.Thm.C09_Bound", "LolHtml.Thm.C02_Chunk", "LolHtml.Thm.C02_Final"],
+    ["LolHtml.Thm.C09_Bound", "LolHtml.Thm.C02_Chunk", "LolHtml.Thm.C02_Final", "LolHtml.Thm.C02_Removal", "LolHtml.Thm.C02_RemovalFinal"],
     [{"lane": "lex", "n_quick": 4000, "n_thorough": 200000}],
     LEX_RULE + "; oracles: emitted count after each write vs a fresh rewriter given the prefix in one write; with no handlers the held bytes must be '<' ['/'] name-prefix or <= 8 look-ahead bytes, and nothing when a full lexer holds nothing",
     ["schedule independence is C09_schedule_independent (in Thm/C02_Chunk): after any successful writes the sink holds exactly the bytes a fresh rewriter emits for the concatenation in one write — for the controller class TextBlind and Clean runs, see C02",
@@ -448,11 +456,12 @@ prop(
 
 prop(
     "C02",
-    ["LolHtml.Thm.C02_Chunk", "LolHtml.Thm.C02_Final"],
+    ["LolHtml.Thm.C02_Chunk", "LolHtml.Thm.C02_Final", "LolHtml.Thm.C02_Removal", "LolHtml.Thm.C02_RemovalFinal"],
     [{"lane": "lex", "n_quick": 4000, "n_thorough": 200000},
+     {"lane": "full", "n_quick": 2000, "n_thorough": 40000},
      {"lane": "pass", "n_quick": 2000, "n_thorough": 40000, "impl_only": True}],
     LEX_RULE + "; oracle: every chunked run is compared with the single-write run (result, canonical event log with absolute ranges, output); lane pass: text nodes seen by a text handler under every encoding must not depend on the chunking",
-    ["whole-run invariance (C02_chunk_invariance, C02_chunk_vs_single) is proved for the controller class TextBlind: an equivalence E on controller states respected by all operations, tokens observed in absolute form, text chunks never fail / never switch encoding / serialise to themselves / are splittable up to E (text-ignoring controllers, constant-flag observers, a byte counter that does observe text, and the lane's scripted controller with failAt = 0 are instances), and shouldEmit always true: controllers that REMOVE content are not covered (in the model a generic controller could flip emission at a tag with no captured token, which is chunk-dependent; the real HtmlRewriteController requests removal from a token handler only)",
+    ["whole-run invariance (C02_chunk_invariance, C02_chunk_vs_single) is proved for the controller class TextBlind: an equivalence E on controller states respected by all operations, tokens observed in absolute form, text chunks never fail / never switch encoding / serialise to themselves / are splittable up to E (text-ignoring controllers, constant-flag observers, a byte counter that does observe text, and the lane's scripted controller with failAt = 0 are instances), and shouldEmit always true; content REMOVAL is covered by the class TextBlindR (Thm/C02_Removal: handle_start_tag, the aux-info continuation and non-tag tokens keep should_emit_content, handle_end_tag may only turn it on, tag tokens may change it arbitrarily) — an emission discipline the TransformController trait does not document but the real controller satisfies. The real controller model fullCtl (any selectors; element / comment / doctype / end-tag / document-end handlers with arbitrary mutating or failing scripts, NO text handlers) is an instance (C02_real_class), giving C02_real / C09_real: the rewritten OUTPUT of the whole rewriter model is the same for every chunking — under Clean and the decidable run hypothesis ResumeAtEndTag (the re-lexed tag after an end-tag hint is that end tag), which is a THEOREM for controllers that never return panic-class errors (C02_resumeAtEndTag via C06_relex_end_tag; final forms C02_chunk_invariance_removal_final / C09_schedule_independent_removal_final need only 'no memory-limit error') but not for fullCtl, whose out-of-protocol states can (see C15)",
      "the two chunked runs and the single-write run must be Clean: no panic-class result (C15_no_panic_full shows they cannot occur) and no memory-limit error (the limit is chunk-dependent by nature); chunk lists non-empty",
      "handler-visible TEXT under non-UTF-8 encodings (decoder state across writes) is covered by lanes pass / enc and C13's decoder theorems, not by this theorem", MODEL_SCOPE],
     level_text=("Lean 4 theorems for any table satisfying the decidable side-condition WfChunk (a forward dataflow analysis of "
@@ -468,7 +477,10 @@ prop(
                 "success, the same sink bytes and E-related controller states (C02_chunk_vs_single); two chunkings with equal "
                 "concatenation give the same outcome and sink bytes (C02_chunk_invariance); on the lane world also the same "
                 "event log (C02_chunk_invariance_lex); C02_chunk_invariance_final replaces the Clean hypotheses by 'no call "
-                "hits the memory limit' using C15_no_panic_full."),
+                "hits the memory limit' using C15_no_panic_full. With content removal (C02_Removal): the same theorems for the "
+                "class TextBlindR, the real controller model as an instance (C02_real, C09_real: rewriting output independent of "
+                "the chunking for configurations without text handlers), ResumeAtEndTag discharged for clean controllers "
+                "(C02_resumeAtEndTag)."),
     level_note="Trusted: Lean kernel; DSL translator; the core model (lane lex).",
     technique="Lean 4 proof (simulation between a run on a slice and a run on the whole document: step, one cut, dispatcher instance, induction over chunk lists) + correspondence lane + chunked-vs-single oracle",
     design_ref="DESIGN.md section 4 C02",
